@@ -222,7 +222,9 @@ func stableCheckAt(w *core.Worker, c *Case, from int, prefixes []int) (definitiv
 			}
 		}
 		F := c.P.New(c.Cfg)
-		n, e, pan, _ := safeCall(F, c.Buf[:cut], c.Start)
+		// hostile slack after len: a verdict that peeks past the prefix is computed from bytes
+		// that differ from the real extension
+		n, e, pan, _ := safeCall(F, s.isoPrefix(c.Buf[:cut], cut), c.Start)
 		w.Eval(1)
 		if pan != "" {
 			w.Inc("panicked(left to C04)")
@@ -252,7 +254,7 @@ func stableCheckAt(w *core.Worker, c *Case, from int, prefixes []int) (definitiv
 			d0 := definitiveAt
 			w.Fail("premature/"+c.P.Name, func() *core.Violation {
 				F0 := c.P.New(c.Cfg)
-				safeCall(F0, c.Buf[:d0], c.Start)
+				safeCall(F0, exactCopy(c.Buf[:d0]), c.Start)
 				viewOf(&s.v3, F0, d0, op, true)
 				viewOf(&s.v2, F, cut, op, true)
 				diff = view.Diff(&s.v3, &s.v2)
